@@ -197,5 +197,74 @@ impl<A, D: Dimension> ArrayN<A, D> {
 //@end
 }
 
+// ---- C20 as lemmas over the contracts proved above -----------------------------------------------------------------------
+// Logically equal arrays (same shape, same elements in logical order, same index patterns; strides, memory order, offset and
+// ownership may differ) get the same error, and otherwise answers that designate extremal elements of the same logical array,
+// equivalent under the element order.  (Which of several equivalent extremal elements is returned is NOT determined by the
+// contracts - and not by the code either: known finding D11.)
+pub open spec fn same_logical<A, D: Dimension>(a: &ArrayN<A, D>, b: &ArrayN<A, D>) -> bool {
+    a@ == b@ && a.shape_spec() == b.shape_spec() && forall|k: int| a.idx(k) == b.idx(k)
+}
+proof fn lemma_layout_argmin<A: PartialOrd, D: Dimension>(a1: ArrayN<A, D>, a2: ArrayN<A, D>, r1: Result<D::Pattern, MinMaxError>, r2: Result<D::Pattern, MinMaxError>)
+    requires
+        float_like::<A>(), same_logical(&a1, &a2),
+        call_ensures(ArrayN::<A, D>::argmin, (&a1,), r1), call_ensures(ArrayN::<A, D>::argmin, (&a2,), r2),
+    ensures
+        r1 is Err ==> r1 == r2, r2 is Err ==> r1 == r2, // [C20]
+        (r1 matches Ok(p1) && r2 matches Ok(p2)) ==> exists|k1: int, k2: int| is_min_at(a1@, k1) && is_min_at(a1@, k2) && r1->Ok_0 == a1.idx(k1) && r2->Ok_0 == a1.idx(k2) && pcmp(a1@[k1], a1@[k2]) == Some(Ordering::Equal), // [C20]
+{
+    reveal(float_like);
+    if r1 is Ok && r2 is Ok {
+        let k1 = choose|k: int| is_min_at(a1@, k) && r1->Ok_0 == a1.idx(k);
+        let k2 = choose|k: int| is_min_at(a2@, k) && r2->Ok_0 == a2.idx(k);
+        assert(ple(a1@[k1], a1@[k2]) && ple(a1@[k2], a1@[k1]));
+    }
+}
+proof fn lemma_layout_argmax<A: PartialOrd, D: Dimension>(a1: ArrayN<A, D>, a2: ArrayN<A, D>, r1: Result<D::Pattern, MinMaxError>, r2: Result<D::Pattern, MinMaxError>)
+    requires
+        float_like::<A>(), same_logical(&a1, &a2),
+        call_ensures(ArrayN::<A, D>::argmax, (&a1,), r1), call_ensures(ArrayN::<A, D>::argmax, (&a2,), r2),
+    ensures
+        r1 is Err ==> r1 == r2, r2 is Err ==> r1 == r2, // [C20]
+        (r1 matches Ok(p1) && r2 matches Ok(p2)) ==> exists|k1: int, k2: int| is_max_at(a1@, k1) && is_max_at(a1@, k2) && r1->Ok_0 == a1.idx(k1) && r2->Ok_0 == a1.idx(k2) && pcmp(a1@[k1], a1@[k2]) == Some(Ordering::Equal), // [C20]
+{
+    reveal(float_like);
+    if r1 is Ok && r2 is Ok {
+        let k1 = choose|k: int| is_max_at(a1@, k) && r1->Ok_0 == a1.idx(k);
+        let k2 = choose|k: int| is_max_at(a2@, k) && r2->Ok_0 == a2.idx(k);
+        assert(pge(a1@[k1], a1@[k2]) && pge(a1@[k2], a1@[k1]));
+    }
+}
+proof fn lemma_layout_min<A: PartialOrd, D: Dimension>(a1: ArrayN<A, D>, a2: ArrayN<A, D>, r1: Result<&A, MinMaxError>, r2: Result<&A, MinMaxError>)
+    requires
+        float_like::<A>(), same_logical(&a1, &a2),
+        call_ensures(ArrayN::<A, D>::min, (&a1,), r1), call_ensures(ArrayN::<A, D>::min, (&a2,), r2),
+    ensures
+        r1 is Err ==> r1 == r2, r2 is Err ==> r1 == r2, // [C20]
+        (r1 matches Ok(x1) && r2 matches Ok(x2)) ==> pcmp(*(r1->Ok_0), *(r2->Ok_0)) == Some(Ordering::Equal), // [C20] the same value up to the order's equivalence
+{
+    reveal(float_like);
+    if r1 is Ok && r2 is Ok {
+        let k1 = choose|k: int| is_min_at(a1@, k) && *(r1->Ok_0) == a1@[k];
+        let k2 = choose|k: int| is_min_at(a2@, k) && *(r2->Ok_0) == a2@[k];
+        assert(ple(a1@[k1], a1@[k2]) && ple(a1@[k2], a1@[k1]));
+    }
+}
+proof fn lemma_layout_max<A: PartialOrd, D: Dimension>(a1: ArrayN<A, D>, a2: ArrayN<A, D>, r1: Result<&A, MinMaxError>, r2: Result<&A, MinMaxError>)
+    requires
+        float_like::<A>(), same_logical(&a1, &a2),
+        call_ensures(ArrayN::<A, D>::max, (&a1,), r1), call_ensures(ArrayN::<A, D>::max, (&a2,), r2),
+    ensures
+        r1 is Err ==> r1 == r2, r2 is Err ==> r1 == r2, // [C20]
+        (r1 matches Ok(x1) && r2 matches Ok(x2)) ==> pcmp(*(r1->Ok_0), *(r2->Ok_0)) == Some(Ordering::Equal), // [C20]
+{
+    reveal(float_like);
+    if r1 is Ok && r2 is Ok {
+        let k1 = choose|k: int| is_max_at(a1@, k) && *(r1->Ok_0) == a1@[k];
+        let k2 = choose|k: int| is_max_at(a2@, k) && *(r2->Ok_0) == a2@[k];
+        assert(pge(a1@[k1], a1@[k2]) && pge(a1@[k2], a1@[k1]));
+    }
+}
+
 } // verus!
 fn main() {}
